@@ -2,7 +2,6 @@ package harness
 
 import (
 	"bytes"
-	"errors"
 	"fmt"
 	"os"
 	"regexp"
@@ -202,14 +201,7 @@ func (o rop) run(env *ropEnv) (res string, err error) {
 			}
 			fmt.Fprintf(&sb, "merged:%d:%x", buf.Len(), hash64(buf.String()))
 		case 8:
-			// a merge (document-by-document stored path: one document dropped) cancelled when the first bytes reach the writer
-			drop := roaring.New()
-			if env.seg.Count() > 0 {
-				drop.Add(0)
-			}
-			w := &closeAt{k: 1, ch: make(chan struct{})}
-			_, err := ice.Merge([]segment.Segment{env.seg}, []*roaring.Bitmap{drop}, 16).WriteTo(w, w.ch)
-			if err != nil && !errors.Is(err, segment.ErrClosed) {
+			if err := cancelledMerge(env.seg); err != nil {
 				return err
 			}
 			sb.WriteString("cancelled-or-complete")
